@@ -369,8 +369,12 @@ MonC08(S) ==
 (***************************************************************************)
 (* Dispatch and the replay state machine.                                  *)
 (***************************************************************************)
+\* end-to-end halves of the value properties: the delivered cells of the property's column kinds match the oracle
+MonE2E(p, S) == SeqFails(p \o ".end-to-end", S, Delivered(S, 0), ExpectedFrom(S, StartPos(S)), TRUE)
+
 Mon(p, S) ==
   CASE p = "C01" -> MonC01(S)
+    [] p \in {"C09", "C10", "C11", "C12", "C13", "C14"} -> MonE2E(p, S)
     [] p = "C02" -> MonC02(S)
     [] p = "C03" -> MonC03(S)
     [] p = "C04" -> MonC04(S)
